@@ -307,3 +307,81 @@ def so1(P, C):
          ("loop-carried variables: %s (output count only)" % [f.var_name(v) for v in carried]) if not bad else
          "`%s` keeps its value from one requested row to the next and steers the search at %s: rows that are not in ascending order are skipped"
          % (f.var_name(bad[0][1]), f.loc(bad[0][0])))
+
+
+def mm1(P, C, floor=30):
+    """MM-1: the element size in a byte count is the element size of the array it is applied to."""
+    C.rule("MM-1", "in memcpy / memmove / memset / realloc(p, n*sizeof(T)) and in `(U*)malloc(n*sizeof(T))`, `(U*)calloc(n, sizeof(T))` the type in "
+           "the sizeof has the size of the elements of the destination array (same type, or a type of the same width such as int / unsigned "
+           "int): a count of elements multiplied by the size of another type moves or allocates the wrong number of bytes", floor=floor)
+    SIZE = {"char": 1, "signed char": 1, "unsigned char": 1, "short": 2, "unsigned short": 2, "int": 4, "unsigned int": 4, "unsigned": 4, "float": 4,
+            "long": 8, "unsigned long": 8, "long long": 8, "unsigned long long": 8, "double": 8, "size_t": 8, "uint64_t": 8, "int64_t": 8,
+            "uint32_t": 4, "int32_t": 4, "bool": 1}
+
+    def norm(t):
+        t = (t or "").replace("const ", "").replace("volatile ", "").replace("struct ", "").strip()
+        return t
+
+    def size_of(t):
+        t = norm(t)
+        if t.endswith("*"):
+            return 8
+        return SIZE.get(t)
+    n = 0
+    for f in sorted(P.functions.values(), key=lambda g: (g.file, g.line, str(g.targs))):
+        if not f.file.startswith(core.REPO) or f.unit.startswith("selftest"):
+            continue
+        for i, cal in f.calls():
+            if not cal or cal["name"] not in ("memcpy", "memmove", "memset", "malloc", "realloc", "calloc"):
+                continue
+            so = [x for x in f.walk(i) if f.k(x) == "UnaryExprOrTypeTraitExpr" and f.nodes[x].get("argType")]
+            if len(so) != 1:
+                continue
+            T = norm(f.nodes[so[0]]["argType"])
+            tsize = f.nodes[so[0]].get("cv")
+            if cal["name"] in ("malloc", "calloc"):
+                p_ = f.parent[i]
+                dst_t = f.nodes[p_].get("t") if p_ >= 0 and f.k(p_).endswith("CastExpr") else None
+            else:
+                a0 = f.strip(f.args(i)[0], casts=True)
+                dst_t = f.nodes[a0].get("t")
+            dst_t = norm(dst_t)
+            if not dst_t or not dst_t.endswith("*") or dst_t.startswith("void"):
+                continue
+            elem = dst_t[:-1].strip()
+            es = size_of(elem)
+            ok = elem == T or (es is not None and tsize is not None and es == tsize)
+            if es is None and elem != T:
+                continue                    # element type of unknown size under another name: no claim
+            n += 1
+            C.ob("MM-1", f.name, "%s:%s@%d" % (cal["name"], T.replace(" ", ""), f.nodes[i]["loc"][0]), ok, f.loc(i),
+                 "elements of %s, byte count in units of sizeof(%s)" % (elem, T) if ok else
+                 "the array has elements of type %s (%s bytes) but the byte count is in units of sizeof(%s) = %s: %s" %
+                 (elem, es, T, tsize, "only part of the elements is moved" if (tsize or 0) < (es or 0) else "more bytes than the elements occupy are touched"))
+    return n
+
+
+def sp3(P, C):
+    """SP-3: factors whose arrays are copied into each other have the same form."""
+    C.rule("SP-3", "recompute_factor copies the columns of the block factor L_F into the main factor L entry by entry, and every row update "
+           "(cholmod_l_rowadd / rowdel) works on a simplicial LDL' factor: each cholmod_l_change_factor in the factor-update code asks for "
+           "the same form by constants — to_ll = false, to_super = false — so that the values it copies mean the same thing in both "
+           "(a supernodal LL' factorisation of a large block would otherwise be read as LDL')", floor=3)
+    n = 0
+    for f in sorted(P.functions.values(), key=lambda g: (g.file, g.line)):
+        if not f.file.endswith("cholesky_solve.c"):
+            continue
+        for i, cal in f.calls():
+            if not cal or cal["name"] != "cholmod_l_change_factor":
+                continue
+            a = f.args(i)
+            vals = [f.nodes[f.strip(x)].get("cv", f.nodes[x].get("cv")) for x in a[1:3]]
+            ok = vals == [0, 0]
+            n += 1
+            C.ob("SP-3", f.name, "change_factor@%d" % f.nodes[i]["loc"][0], ok, f.loc(i),
+                 "to_ll = false, to_super = false" if ok else
+                 "the factor is converted with to_ll = %s, to_super = %s: not the constant simplicial LDL' form that the entry-wise copy into the main "
+                 "factor and the row updates assume" % tuple(f.render(x) for x in a[1:3]))
+    if n == 0:
+        raise core.AnalysisBroken("SP-3: no cholmod_l_change_factor call in cholesky_solve.c")
+    return n
